@@ -41,7 +41,7 @@ package cors
 //@ macro authStart(t) = ite(urlScheme(t) == "", 2, len(urlScheme(t)) + 3)
 //@ macro layout(t) = (urlScheme(t) != "" ==> len(urlScheme(t)) + 3 < len(t) && t[len(urlScheme(t))] == ':' && t[len(urlScheme(t))+1] == '/' && t[len(urlScheme(t))+2] == '/' && urlScheme(t) == lower(t[:len(urlScheme(t))]) && forall(k, 0, len(urlScheme(t)), t[k] != ':' && t[k] != '/')) &&
 //@ ..   (urlScheme(t) == "" ==> len(t) > 2 && t[0] == '/' && t[1] == '/') &&
-//@ ..   forall(k, authStart(t), len(t) - 1, !(t[k] == '/' && t[k+1] == '/')) &&
+//@ ..   forall(k, authStart(t), len(t) - 1, t[k] == '/' ==> forall(m, 0, len(t), m == k + 1 ==> t[m] != '/')) &&
 //@ ..   (urlScheme(t) != "" && !urlHasUser(t) && t[len(urlScheme(t))+3] != '%' ==> urlHost(t)[0] == t[len(urlScheme(t))+3])
 
 //@ func normalizeOrigin
@@ -54,9 +54,10 @@ package cors
 //@   ensures valid-entry-layout: result0 ==> layout(origin)
 //@   ensures normalised-parts: result0 ==> len(result1) == len(urlScheme(origin)) + 3 + len(urlHost(origin)) && result1[:len(urlScheme(origin))] == lower(urlScheme(origin)) && result1[len(urlScheme(origin)):len(urlScheme(origin))+3] == "://" && result1[len(urlScheme(origin))+3:] == lower(urlHost(origin))
 //@   ensures normalised-prefix: result0 ==> result1[:len(urlScheme(origin))+3] == lower(urlScheme(origin)) + "://"
+//@   ensures normalised-separator-bytes: result0 ==> result1[len(urlScheme(origin))] == ':' && result1[len(urlScheme(origin))+1] == '/' && result1[len(urlScheme(origin))+2] == '/'
 //@   ensures normalised-scheme-has-no-separator: result0 ==> forall(k, 0, len(urlScheme(origin)), result1[k] != ':' && result1[k] != '/')
 //@   ensures normalised-is-lower: result0 ==> result1 == lower(result1)
-//@   ensures single-separator-behind-scheme: result0 ==> forall(m, 0, len(origin) - 2, origin[m] == ':' && origin[m+1] == '/' && origin[m+2] == '/' ==> m == len(urlScheme(origin)))
+//@   ensures single-separator-behind-scheme: result0 ==> forall(m, 0, len(origin) - 2, origin[m] == ':' ==> forall(p, 0, len(origin), p == m + 1 && origin[p] == '/' ==> forall(q, 0, len(origin), q == m + 2 && origin[q] == '/' ==> m == len(urlScheme(origin)))))
 //@   ensures host-byte-behind-separator: result0 && urlScheme(origin) != "" && !urlHasUser(origin) && origin[len(urlScheme(origin))+3] != '%' ==> result1[len(urlScheme(origin))+3] == lower(origin)[len(urlScheme(origin))+3]
 
 // matchScheme: both strings have a ':' and the texts before the first ':' are the same.
@@ -84,17 +85,46 @@ package cors
 //@ macro blank() = ' '
 //@ macro destar(e, i) = e[:i+3] + e[i+4:]
 //@ macro markerAt(e) = strIndex(e, "://*.")
-//@ macro wildText(e) = trimmed(destar(e, markerAt(e)), blank())
-//@ macro exactFrom(x, e) = markerAt(e) == -1 && validEntry(trimmed(e, blank())) && x == normOf(trimmed(e, blank()))
-//@ macro wildFrom(p, s, e) = markerAt(e) >= 0 && validEntry(wildText(e)) && p == lower(urlScheme(wildText(e))) + "://" && s == lower(urlHost(wildText(e)))
+// The vocabulary of the list clauses as spec functions of ONE entry text (plain definitions, define-fun): an entry
+// cfg.AllowOrigins[j] is a long term (cfg is a by-value struct copy), and a clause that repeats it a dozen times per
+// bound variable is beyond the size up to which the engine adds the ground witnesses (last element, first element, old
+// Skolem witness) to an existential goal - without them the goals below were decided by model-based instantiation only
+// and flipped with the solver seed. Same meaning as the expanded text:
+//   wildTextOf(e)    the wildcard entry e without its '*', trimmed          exactOf(e)       the listed form of an exact entry
+//   wildPrefixOf(e)  lower(scheme) "://" of it                              exactEntry(e)    e has no marker and is a valid origin
+//   wildSuffixOf(e)  lower(host) of it (starts with the '.' behind the '*') wildEntry(e)     e has the marker and is valid without the '*'
+//@ fn wildTextOf(e string) string = trimmed(destar(e, markerAt(e)), blank())
+//@ fn wildPrefixOf(e string) string = lower(urlScheme(wildTextOf(e))) + "://"
+//@ fn wildSuffixOf(e string) string = lower(urlHost(wildTextOf(e)))
+//@ fn exactOf(e string) string = normOf(trimmed(e, blank()))
+//@ fn exactEntry(e string) bool = markerAt(e) == -1 && validEntry(trimmed(e, blank()))
+//@ fn wildEntry(e string) bool = markerAt(e) >= 0 && validEntry(wildTextOf(e))
+//@ macro wildText(e) = wildTextOf(e)
+// (as functions of the list element(s) and ONE mention of the entry, for the same reason)
+//@ fn exactFromF(x string, e string) bool = exactEntry(e) && x == exactOf(e)
+//@ fn wildFromF(p string, s string, e string) bool = wildEntry(e) && p == wildPrefixOf(e) && s == wildSuffixOf(e)
+//@ fn wildListing(p string, s string, e string) bool = p == wildPrefixOf(e) && s == wildSuffixOf(e)
+//@ macro exactFrom(x, e) = exactFromF(x, e)
+//@ macro wildFrom(p, s, e) = wildFromF(p, s, e)
 // sdShape(p, s): p is "scheme://" (no ':' or '/' inside the scheme), s starts with '.', both in lower case. With it
 // sdMatch(p, s, o) says: o is scheme "://" x s with the last label of x ending right before a '.'.
 //@ fn sdShape(p string, s string) bool = len(p) > 3 && p[len(p)-3:] == "://" && forall(k, 0, len(p)-3, p[k] != ':' && p[k] != '/') && len(s) > 0 && s[0] == '.' && p == lower(p) && s == lower(s)
-//@ macro exactTraced(n) = forall(k, 0, len(allowOrigins), exists(j, 0, n, exactFrom(allowOrigins[k], cfg.AllowOrigins[j])))
-//@ macro wildTraced(n) = forall(k, 0, len(allowSOrigins), exists(j, 0, n, wildFrom(allowSOrigins[k].prefix, allowSOrigins[k].suffix, cfg.AllowOrigins[j])))
+// exactTraced / wildTraced: the conjunct len(...) >= 0 is true of every string; it names the list element OUTSIDE the
+// existential, so that the element is a ground term of the goal once k is fixed and the loop invariant (triggered on the
+// element) hands over its witness - the bound variable of a forall-exists clause must not occur under the exists only.
+//@ macro exactTraced(n) = forall(k, 0, len(allowOrigins), len(allowOrigins[k]) >= 0 && exists(j, 0, n, exactFrom(allowOrigins[k], cfg.AllowOrigins[j])))
+//@ macro wildTraced(n) = forall(k, 0, len(allowSOrigins), len(allowSOrigins[k].prefix) >= 0 && exists(j, 0, n, wildFrom(allowSOrigins[k].prefix, allowSOrigins[k].suffix, cfg.AllowOrigins[j])))
 //@ macro wildShaped() = forall(k, 0, len(allowSOrigins), sdShape(allowSOrigins[k].prefix, allowSOrigins[k].suffix))
 //@ macro exactLower() = forall(k, 0, len(allowOrigins), allowOrigins[k] == lower(allowOrigins[k]))
-//@ macro entryListed(e) = (markerAt(e) == -1 ==> exists(k, 0, len(allowOrigins), allowOrigins[k] == normOf(trimmed(e, blank())))) && (markerAt(e) >= 0 ==> exists(k, 0, len(allowSOrigins), allowSOrigins[k].prefix == lower(urlScheme(wildText(e))) + "://" && allowSOrigins[k].suffix == lower(urlHost(wildText(e)))))
+//@ macro exactListed(e) = markerAt(e) == -1 ==> exists(k, 0, len(allowOrigins), allowOrigins[k] == exactOf(e))
+//@ macro wildListed(e) = markerAt(e) >= 0 ==> exists(k, 0, len(allowSOrigins), wildListing(allowSOrigins[k].prefix, allowSOrigins[k].suffix, e))
+//@ macro entryListed(e) = exactListed(e) && wildListed(e)
+// The same three statements for New's postconditions, with the existential written as !forall(!...): the engine gives a
+// forall its E-matching pattern (the indexed element) and leaves an exists to the solver's pattern inference; at the exit
+// the witness is the one the loop invariant hands over (an index term of the invariant's instance), the pattern finds it.
+//@ macro exactTracedAtExit(n) = forall(k, 0, len(allowOrigins), len(allowOrigins[k]) >= 0 && !forall(j, 0, n, !exactFrom(allowOrigins[k], cfg.AllowOrigins[j])))
+//@ macro wildTracedAtExit(n) = forall(k, 0, len(allowSOrigins), len(allowSOrigins[k].prefix) >= 0 && !forall(j, 0, n, !wildFrom(allowSOrigins[k].prefix, allowSOrigins[k].suffix, cfg.AllowOrigins[j])))
+//@ macro entryListedAtExit(e) = (markerAt(e) == -1 ==> !forall(k, 0, len(allowOrigins), allowOrigins[k] != exactOf(e))) && (markerAt(e) >= 0 ==> !forall(k, 0, len(allowSOrigins), !(wildListing(allowSOrigins[k].prefix, allowSOrigins[k].suffix, e))))
 //@ macro nothingConfigured() = len(cfg.AllowOrigins) == 0 && cfg.AllowOriginsFunc == nil
 
 //@ macro lead(e, i) = trimLead(destar(e, i), blank())
@@ -113,10 +143,11 @@ package cors
 //@     invariant index-in-range: rangeindex < len(cfg.AllowOrigins)
 //@     invariant no-star-so-far: forall(k, 0, rangeindex + 1, cfg.AllowOrigins[k] != "*")
 //@     invariant lists-are-own-storage: arr(allowOrigins) != arr(cfg.AllowOrigins)
+//@     invariant one-list-element-per-entry: len(allowOrigins) + len(allowSOrigins) == rangeindex + 1
+//@     invariant newest-exact-entry-is-last-element: rangeindex >= 0 && markerAt(cfg.AllowOrigins[rangeindex]) == -1 ==> len(allowOrigins) > 0 && allowOrigins[len(allowOrigins)-1] == exactOf(cfg.AllowOrigins[rangeindex])
+//@     invariant newest-wildcard-entry-is-last-element: rangeindex >= 0 && markerAt(cfg.AllowOrigins[rangeindex]) >= 0 ==> len(allowSOrigins) > 0 && allowSOrigins[len(allowSOrigins)-1].prefix == wildPrefixOf(cfg.AllowOrigins[rangeindex]) && allowSOrigins[len(allowSOrigins)-1].suffix == wildSuffixOf(cfg.AllowOrigins[rangeindex])
 //@     invariant exact-entries-traced: exactTraced(rangeindex + 1)
 //@     invariant exact-entries-lower: exactLower()
-//@     invariant one-list-element-per-entry: len(allowOrigins) + len(allowSOrigins) == rangeindex + 1
-//@     invariant every-entry-listed: forall(j, 0, rangeindex + 1, entryListed(cfg.AllowOrigins[j]))
 //@     invariant wildcard-entries-traced: wildTraced(rangeindex + 1)
 //@     invariant wildcard-prefix-ends-with-separator: forall(k, 0, len(allowSOrigins), len(allowSOrigins[k].prefix) > 3 && allowSOrigins[k].prefix[len(allowSOrigins[k].prefix)-3:] == "://")
 //@     invariant wildcard-prefix-is-one-scheme: forall(k, 0, len(allowSOrigins), forall(m, 0, len(allowSOrigins[k].prefix)-3, allowSOrigins[k].prefix[m] != ':' && allowSOrigins[k].prefix[m] != '/'))
@@ -124,6 +155,8 @@ package cors
 //@     invariant wildcard-prefix-lower: forall(k, 0, len(allowSOrigins), allowSOrigins[k].prefix == lower(allowSOrigins[k].prefix))
 //@     invariant wildcard-suffix-lower: forall(k, 0, len(allowSOrigins), allowSOrigins[k].suffix == lower(allowSOrigins[k].suffix))
 //@     invariant wildcard-entries-shaped: wildShaped()
+//@     invariant every-exact-entry-listed: forall(j, 0, rangeindex + 1, exactListed(cfg.AllowOrigins[j]))
+//@     invariant every-wildcard-entry-listed: forall(j, 0, rangeindex + 1, wildListed(cfg.AllowOrigins[j]))
 //@   ensures all-origins-iff-unconfigured-or-star: allowAllOrigins <==> nothingConfigured() || exists(j, 0, len(cfg.AllowOrigins), cfg.AllowOrigins[j] == "*")
 //@   ensures credentials-with-all-origins-panics: !(cfg.AllowCredentials && allowAllOrigins)
 //@   ensures one-list-element-per-entry: !allowAllOrigins ==> len(allowOrigins) + len(allowSOrigins) == len(cfg.AllowOrigins)
@@ -131,8 +164,8 @@ package cors
 //@   ensures default-methods: len(config) > 0 && len(old(config[0].AllowMethods)) == 0 ==> cfg.AllowMethods == ConfigDefault.AllowMethods
 //@   ensures default-configuration: len(config) == 0 ==> cfg.AllowOrigins == old(ConfigDefault.AllowOrigins) && cfg.AllowCredentials == old(ConfigDefault.AllowCredentials) && cfg.AllowMethods == ConfigDefault.AllowMethods
 //@   ensures handler-made: result != nil
-//@   ensures every-entry-listed: !allowAllOrigins ==> forall(j, 0, len(cfg.AllowOrigins), entryListed(cfg.AllowOrigins[j]))
-//@   ensures exact-entries-traced: exactTraced(len(cfg.AllowOrigins))
+//@   ensures every-entry-listed: !allowAllOrigins ==> forall(j, 0, len(cfg.AllowOrigins), entryListedAtExit(cfg.AllowOrigins[j]))
+//@   ensures exact-entries-traced: exactTracedAtExit(len(cfg.AllowOrigins))
 //@   ensures exact-entries-lower: exactLower()
-//@   ensures wildcard-entries-traced: wildTraced(len(cfg.AllowOrigins))
+//@   ensures wildcard-entries-traced: wildTracedAtExit(len(cfg.AllowOrigins))
 //@   ensures wildcard-entries-shaped: wildShaped()
